@@ -62,7 +62,8 @@ def exceptions_of(n, fi, summary, res):
             continue
         todo.extend(ast.iter_child_nodes(x))
         if isinstance(x, ast.Subscript) and isinstance(x.ctx, ast.Load) and not isinstance(x.slice, ast.Slice):
-            if not _guarded_subscript(x):
+            # data-dependent lookup failures: only when the key or the container derives from the hostile text
+            if any(isinstance(y, ast.Name) and y.id in tainted for y in ast.walk(x)):
                 out.add("KeyError")
                 out.add("IndexError")
         if isinstance(x, ast.BinOp) and isinstance(x.op, (ast.Div, ast.FloorDiv, ast.Mod)) and not _nonzero(x.right):
